@@ -8,7 +8,9 @@ def experienced(pid, tier, seed):
     n = 60 if tier == "quick" else 10000
     kind = "producer"
     _C.RUNNERS[kind] = SPEC["corr"][0]["runner"]
-    cases = [l for l in _C.gen_cases(kind, seed * 1000 + 977, n * 3) if not l.startswith("producer unix") and not l.endswith(" -")][:n]
+    cases = [l for l in _C.gen_cases(kind, seed * 1000 + 977, n * 3) if not l.startswith("producer unix") and not l.endswith(" -")
+             # the quick tier has its one stalled-sink case (3.5 s of silence) in the main correspondence
+             and not (tier == "quick" and "z" in l.split(" ")[5])][:n]
     shards = 1 if tier == "quick" else min(_C.NCPU, 8)
     chunks = [cases[i::shards] for i in range(shards)]
 
@@ -58,11 +60,13 @@ SPEC = {
              {"kind": "producerk", "quick": 400, "thorough": 40000,
               "runner": {"pkg": "./producer", "test": "TestVerifSarama", "race": False, "timeout": "30m"}}],
     "extra": [experienced],
-    "rule": "fault scripts (sink closes / resets / goes down / comes back at message indices, or stalls and kills the connection while the producer is blocked half-way through writing a multi-megabyte message) x protocols unix, tcp, udp x "
+    "rule": "fault scripts (sink closes / resets / goes down / comes back at message indices, or stalls and kills the connection while the producer is blocked half-way through writing a multi-megabyte message, or stays connected but reads nothing for 3.5 s "
+            "while such a message is being written and then reads everything: event z, stream sockets, no fault — exact delivery and a zero error counter are demanded; "
+            "one such case per quick run, 40-48 per thorough run, one or two stalls each, half of them mixed with the other faults; they run in a lane of their own next to the other cases) x protocols unix, tcp, udp x "
             "retry-max 0..5 x 8..400 messages whose lengths also sit on buffer boundaries (2^k-1, 2^k, 2^k+1 for k = 8..16; a new longest message followed by one 2^j-1..2^j+1 octets longer) and whose contents include printf verbs, stray '%', multi-kilobyte and binary "
             "octets; run by producer/verif_rawsocket_test.go against real loopback sockets; non-trivial = the sink received "
             "at least one message; distinct = distinct case line. The model predicts the exact per-connection delivery and "
-            "MQErrorCount for unix-socket scripts and all fault-free runs; on tcp/udp fault scripts (kernel timing) the main correspondence prints `nd`; for those the extra pass "
+            "MQErrorCount for unix-socket scripts and all fault-free runs (a run in which the sink only stalls is fault-free, on tcp too); on tcp/udp fault scripts (kernel timing) the main correspondence prints `nd`; for those the extra pass "
             "`producer-experienced-script` runs the model on the outcome script the producer actually experienced (reconstructed from "
             "its log and the sink) and compares ec / per-connection delivery. "
             "producerk (kafka, the default backend; F20): error scripts x 0..400 messages (printf verbs, binary octets, newlines, multi-kilobyte) "
@@ -83,7 +87,8 @@ META = {
             "(delivered_in_order, delivered_subsequence, bounded_gap, counters_exact, resumption, no_fault_all_delivered); "
             "the write expression and retry/redial skeleton of rawSocket.inputMsg and the payload expressions of the other "
             "backends are regenerated from the Go AST and discharged by decide; the real RawSocket is run against real "
-            "unix/tcp/udp sinks under scripted faults. Kafka (sarama, default backend): the send loop of KafkaSarama.inputMsg is a "
+            "unix/tcp/udp sinks under scripted faults and against sinks that stay connected but stop reading for seconds "
+            "(for the model a write that blocks and then returns nil is an `ok` write: the all-ok script of no_fault_all_delivered). Kafka (sarama, default backend): the send loop of KafkaSarama.inputMsg is a "
             "regenerated description interpreted by a Lean model; for every message list and every script of select arms the "
             "values accepted on Input() are exactly the handed-over messages, once, in order, and the error counter equals the "
             "error reports taken (kafka_offered_is_prefix, kafka_offered_eq_received, kafka_counters_exact; false on the loop "
